@@ -879,6 +879,10 @@ class Table(Vector):
 				self._underlying[col_idx][row_spec] = value
 			return
 
+		# (a mapping is neither a row nor a block of cells: iterating it yields its KEYS)
+		if isinstance(value, Mapping):
+			raise SerifTypeError(f"Unsupported assignment value type: {type(value)}")
+
 		# CASE B: Single Row Assignment
 		# t[0, :] = [1, 2, 3]
 		if isinstance(row_spec, int):
